@@ -33,7 +33,7 @@ REQUIRED = [
     ("liquid/extra/tags/extends_tag.py", "BlockDrop.__getitem__"),
     ("liquid/extra/tags/extends_tag.py", "BlockTag.parse"),
 ]
-MIN_COUNTERS = {"super_rendered": 20, "nested_resolved": 20, "expected_required_error": 5, "expected_reject": 5, "inert_child_text": 20, "block_inside_running_loop": 50}
+MIN_COUNTERS = {"super_rendered": 20, "nested_resolved": 20, "expected_required_error": 5, "expected_reject": 5, "inert_child_text": 20, "block_inside_running_loop": 50, "widget_chain_included": 20}
 ASSUMPTIONS = [
     "R-inherit is written from the property text and docs/optional_tags.md; cells they leave open are not judged: block.super that reaches "
     "a definition flagged required, a required most-derived definition the render never reaches, text before the extends tag (never generated)",
@@ -57,6 +57,8 @@ def print_items(items: list) -> str:
             out.append("{{ block.super }}")
         elif k == "loopvar":
             out.append("{{ i }}")
+        elif k == "widget":
+            out.append("{% include '" + it[1] + "' %}")
         elif k == "block":
             _, name, req, body, endname = it
             out.append("{% block " + name + (" required" if req else "") + " %}" + print_items(body) + "{% endblock" + (" " + endname if endname else "") + " %}")
@@ -73,6 +75,14 @@ def print_items(items: list) -> str:
             raise ValueError(k)
     return "".join(out)
 
+
+# independent little chains that a template of the chain under test may include (their block names partly collide with its own):
+# including one renders that chain and must leave the including chain's block resolution alone
+WIDGETS = {
+    "wbase": "<{% block w %}W{% endblock %}>", "widget": "{% extends 'wbase' %}{% block w %}w2{% endblock %}",
+    "wbase2": "<{% block a %}WA{% endblock %}{% block b %}WB{{ block.super }}{% endblock %}>", "widget2": "{% extends 'wbase2' %}{% block a %}wa2{% endblock %}",
+}
+WIDGET_OUT = {"widget": "<w2>", "widget2": "<wa2WB>"}
 
 WRAPPERS = {
     "@with": ("{% with w: 1 %}", "{% endwith %}"), "@case": ("{% case 1 %}{% when 1 %}", "{% endcase %}"), "@unless": ("{% unless false %}", "{% endunless %}"),
@@ -170,6 +180,9 @@ def _model(case: dict[str, Any]):
             elif k == "var":
                 v = data.get(it[1])
                 out.append("" if v is None else ("true" if v else "false") if isinstance(v, bool) else str(v))
+            elif k == "widget":
+                feats["widget_chain_included"] = feats.get("widget_chain_included", 0) + 1
+                out.append(WIDGET_OUT[it[1]])
             elif k == "loopvar":
                 # the innermost loop running when this item renders - also across block boundaries: a definition replaces the block where
                 # it stands, inside whatever loop the root (or an enclosing definition) placed it in.  What a definition reached through
@@ -272,6 +285,7 @@ def env():
 def execute(case: dict[str, Any], use_async: bool):
     e = env()
     srcs = {name: print_template(t) for name, t in case["templates"].items()}
+    srcs.update(WIDGETS)
     entry = case["leaf"]
     if case.get("entry") == "include":
         srcs["__includer"] = "<<{% include '" + case["leaf"] + "' %}>>"
@@ -539,7 +553,7 @@ def gen_items(rng, names: list[str], depth: int, in_block: bool, in_for: bool, u
         elif r < 0.33:
             items.append(["var", rng.choice(["g1", "g2", "nope"])])
         elif r < 0.45 and in_block:
-            items.append(["super"])
+            items.append(["super"] if rng.random() < 0.85 else ["widget", rng.choice(sorted(WIDGET_OUT))])
         elif r < 0.50:
             items.append(["loopvar"])
         elif r < 0.80 and depth < 3:
